@@ -447,9 +447,10 @@ func bytesEqualFold(cc *callCtx) (Value, error) {
 
 // ---- fmt ----
 
+// Formatted strings only ever feed logs and debug data in this package; they
+// are modelled as a fixed placeholder.
 func opaqueString(cc *callCtx) (Value, error) {
-	cc.st.opaque++
-	return &Str{Opaque: cc.st.opaque + 1000}, nil
+	return &Str{S: "<formatted>"}, nil
 }
 
 func (ex *Exec) newErrorString(st *State, s *Str) Value {
@@ -460,8 +461,7 @@ func (ex *Exec) newErrorString(st *State, s *Str) Value {
 }
 
 func fmtErrorf(cc *callCtx) (Value, error) {
-	cc.st.opaque++
-	return cc.ex.newErrorString(cc.st, &Str{Opaque: cc.st.opaque + 1000}), nil
+	return cc.ex.newErrorString(cc.st, &Str{S: "<formatted>"}), nil
 }
 
 func strconvItoa(cc *callCtx) (Value, error) {
